@@ -221,6 +221,57 @@ def sweeps(tier, rng):
             for n in f3.getGlyphOrder(): f3["glyf"][n].expand(f3["glyf"])
             P = validate_saved(_save(f3), "generated-pad%d" % pad)
             yield (("generated-boundary-font", "padding=%d" % pad), "; ".join(P[:6]) if P else None)
+    def run_breakeven():
+        """WOFF: tables whose zlib stream is exactly as long as the table (compLength == origLength means 'stored raw')"""
+        import zlib
+        from fontTools.ttLib import newTable
+        f = boundary_font()
+        found = []
+        for base in (300, 280, 310, 200, 150, 8, 12, 20):
+            rnd = rng.bytes(base)
+            for k in range(0, 80):
+                pl = rnd + b"\0" * k
+                if len(zlib.compress(pl, 6)) == len(pl): found.append(pl); break
+        for tag, pl in zip(["TeSt", "TesU", "TesV", "TesW"], found):
+            t = newTable(tag); t.data = pl; f[tag] = t
+        plain = _save(f)
+        kind, tabs, _ = sfntspec.check_any(plain)
+        for reorder in (True, False):
+            f1 = TTFont(io.BytesIO(plain), lazy=False); f1.flavor = "woff"
+            b = io.BytesIO(); f1.save(b, reorderTables=reorder); data = b.getvalue()
+            P = validate_saved(data, "woff-breakeven", expect_tables=tabs)
+            f2 = TTFont(io.BytesIO(data), lazy=True)
+            for tag in ("TeSt", "TesU", "TesV", "TesW"):
+                if tag in f and f2.reader[tag] != f[tag].data: P.append("table %s (%d bytes, zlib stream equally long) reads back differently" % (tag, len(f[tag].data)))
+            yield (("woff-breakeven", len(found), reorder), "; ".join(P[:6]) if P else None)
+    def run_ttc_members():
+        """a collection of fonts whose same-tag tables have equal length and checksum but different bytes (the same metrics in
+        another glyph order): every member must read back with ITS tables, shared or not"""
+        from fontTools.ttLib import TTCollection
+        from fontTools.fontBuilder import FontBuilder
+        from fontTools.pens.ttGlyphPen import TTGlyphPen
+        def member(order):
+            fb = FontBuilder(1000, isTTF=True); fb.setupGlyphOrder([".notdef"] + order); fb.setupCharacterMap({ord(c): c for c in order})
+            def box(w):
+                pen = TTGlyphPen(None); pen.moveTo((0, 0)); pen.lineTo((w, 0)); pen.lineTo((w, 500)); pen.lineTo((0, 500)); pen.closePath(); return pen.glyph()
+            adv = {"A": (600, 40), "B": (700, 60), "C": (800, 80), ".notdef": (500, 0)}
+            fb.setupGlyf({g: box(adv[g][0] - 100) for g in [".notdef"] + order}); fb.setupHorizontalMetrics({g: adv[g] for g in [".notdef"] + order})
+            fb.setupHorizontalHeader(ascent=800, descent=-200); fb.setupNameTable({"familyName": "T", "styleName": "".join(order)}); fb.setupOS2(); fb.setupPost()
+            b = io.BytesIO(); fb.save(b); return b.getvalue()
+        orders = [["A", "B", "C"], ["B", "A", "C"], ["C", "B", "A"]]
+        rng.shuffle(orders)
+        alone = [member(o) for o in orders]
+        for shared in (True, False):
+            c = TTCollection(); c.fonts = [TTFont(io.BytesIO(d), lazy=False) for d in alone]
+            b = io.BytesIO(); c.save(b, shareTables=shared); data = b.getvalue()
+            try: kind, fontsT, P = sfntspec.check_any(data)
+            except Exception as e: P = ["independent reader: %r" % e]
+            for i, d in enumerate(alone):
+                f0 = TTFont(io.BytesIO(d), lazy=True); f1 = TTFont(io.BytesIO(data), fontNumber=i, lazy=True)
+                for tag in f0.reader.keys():
+                    if tag == "head": continue            # checkSumAdjustment is per file
+                    if f0.reader[tag] != f1.reader[tag]: P.append("member %d (%s): table %s differs from the font saved alone" % (i, "".join(orders[i]), tag)); break
+            yield (("ttc-members", shared, tuple("".join(o) for o in orders)), "; ".join(P[:6]) if P else None)
     def run_ttc():
         from fontTools.ttLib import TTCollection
         import os
@@ -236,7 +287,8 @@ def sweeps(tier, rng):
                 except Exception as e:
                     P = ["independent reader: %r" % e]
                 yield ((corpus.rel(p), "ttc", shared), "; ".join(P[:6]) if P else None)
-    return [Sweep("saved-corpus-fonts", run_corpus), Sweep("generated-font-flavours", run_generated), Sweep("ttc", run_ttc)]
+    return [Sweep("saved-corpus-fonts", run_corpus), Sweep("generated-font-flavours", run_generated), Sweep("ttc", run_ttc),
+            Sweep("woff-breakeven", run_breakeven), Sweep("ttc-members", run_ttc_members)]
 
 def witness(fid):
     return None
